@@ -256,6 +256,112 @@ func VxC13Rounds() {
 	_ = requestedBefore
 }
 
+// VxC13Contention: a due PASSIVE checkpoint that meets an application write transaction.
+// The application holds the write lock for no longer than the configured
+// BusyTimeout; whichever pooled connection litestream's barrier statement runs on
+// (the long-running read transaction pins one; connections are configured by the
+// DSN, a PRAGMA only configures the connection it ran on), the barrier waits and
+// the checkpoint is carried out, not skipped - under steady application writes a
+// skipped checkpoint is never made up for and the WAL grows.
+func VxC13Contention() {
+	dir := vx.TempDir()
+	path := dir + "/app.db"
+	vx.FSWriteFile(path, []byte("SQLite format 3\x00"))
+	vx.FSWriteFile(path+"-wal", make([]byte, WALHeaderSize))
+	e := vxNewSQLEnv(false)
+	defer func() { vxSQLHandler = nil }()
+	db := NewDB(path)
+	if vx.Fault("shortTimeout") {
+		db.BusyTimeout = 200 * time.Millisecond
+	}
+	if err := db.init(context.Background()); err != nil {
+		panic(err)
+	}
+	vx.FSMkdirAll(db.LTXLevelDir(0))
+	vxSyncStub, vxSyncStubCalls = true, 0
+	defer func() { vxSyncStub = false }()
+	// the application is in the middle of a write transaction that ends within the timeout
+	e.appLockMs = int64(vx.Range("appHoldsWriteLockMs", 1, uint64(db.BusyTimeout.Milliseconds())))
+	exec := &syncExecutor{}
+	_, err := db.checkpointWithExecutorReal(context.Background(), CheckpointModePassive, exec)
+	ran := false
+	for _, ev := range vxProtoLog {
+		if ev.kind == "ckpt" {
+			ran = true
+		}
+	}
+	// (a WAL copy that fails for its own reasons ends the call early; not the subject here)
+	vx.Assert("checkpoint-carried-out-when-the-lock-is-released-within-the-busy-timeout", e.busySeen == 0 && (err != nil || ran))
+}
+
+// VxC13Drain: the real DB.Sync (chunk loop, syncOnce, syncLocked with its gate in
+// front of checkpointIfNeeded) draining a backlog of several byte-budget chunks
+// while the application keeps committing: every pass but the last is cut by the
+// budget, and the WAL file is longer at the end than it was when Sync was called.
+// When Sync returns, the checkpoint thresholds have been evaluated on the size the
+// drain ended at: the WAL is below the lowest threshold or a checkpoint was
+// requested - under sustained writes this is the only thing that bounds the WAL.
+func VxC13Drain() {
+	c := vxCkptDB()
+	db := c.db
+	defer db.f.Close()
+	e := vxNewSQLEnv(false)
+	e.pageSize = int64(db.pageSize)
+	defer func() { vxSQLHandler = nil }()
+	db.Replica = NewReplicaWithClient(db, &vxStoreClient{})
+	db.Replica.MonitorEnabled = false
+	db.MonitorInterval = 0
+	vx.FSMkdirAll(db.LTXLevelDir(0))
+	ctx := context.Background()
+	start := vx.Range("framesSynced", 1, 1<<16)
+	chunk := uint64(vx.Choose("chunkFrames", 1, 2))
+	// the WAL when Sync is called: two chunks and a bit ahead of the synced offset
+	atCall := start + 2*chunk + uint64(vx.Choose("tail", 0, 1))
+	vx.FSSparseFileSym(db.path+"-wal", c.walSize(atCall))
+	if err := db.init(ctx); err != nil {
+		panic(err)
+	}
+	db.syncState.lastSyncedWALOffset = c.walSize(start)
+	db.MaxSyncWALBytes = int64(chunk) * c.frame
+	vxCkptStub, vxCkptModes = true, nil
+	vxCkptOutcome = func(string) int { return 0 }
+	defer func() { vxCkptStub = false }()
+	// commits land while each pass runs
+	grow := uint64(vx.Choose("framesPerPass", 1, 2))
+	wal := atCall
+	landing := func() {
+		wal += grow
+		vx.FSSparseFileSym(db.path+"-wal", c.walSize(wal))
+	}
+	// passes: cut by the budget until the remainder fits into one chunk
+	pos := start
+	var script []vxGhostRound
+	for i := 0; i < 3; i++ {
+		script = append(script, vxGhostRound{orig: c.walSize(pos), size: c.walSize(pos + chunk), synced: true, limited: true, before: landing})
+		pos += chunk
+	}
+	// the writer pauses: the last pass reaches the end of the WAL
+	final := atCall + 3*grow
+	vx.Assume(pos <= final)
+	script = append(script, vxGhostRound{orig: c.walSize(pos), size: c.walSize(final), synced: true})
+	vxGhostScript = script
+	defer func() { vxGhostScript = nil }()
+	err := db.Sync(ctx)
+	vx.Assert("drain-is-not-an-error", err == nil)
+	if err != nil {
+		return
+	}
+	vx.Known("H5b", vx.IteU64(c.trN == 0, DefaultTruncatePageN, c.trN) == 1)
+	if len(vxCkptModes) == 0 {
+		// nothing requested during the whole drain: the WAL it ended at is below the
+		// regular threshold, and was below the emergency threshold when the last pass
+		// began (the emergency threshold is evaluated on the size before a round, C13's
+		// "arrives in the next round")
+		eff := vx.IteU64(c.trN == 0, DefaultTruncatePageN, c.trN)
+		vx.Assert("wal-bounded-after-the-drain", vx.And(vx.Or(final < c.minN, final <= 1), pos < eff))
+	}
+}
+
 // VxC13IdleFile: the idle steady state after a PASSIVE checkpoint restarted the
 // WAL: the live generation holds litestream's one bookkeeping frame, already
 // copied, while the WAL *file* still carries the stale tail of the previous
